@@ -56,6 +56,32 @@ fn flow<S: Sch>(cfg: &KeyCfg, seed: u64, big: Option<S::P>) -> Result<Outputs, S
         out.push((format!("commitment[{}]", i), ser(cm.commitment())));
         out.push((format!("state[{}]", i), ser(&c.states[i])));
     }
+    // one commit call over MANY hiding polynomials (and a few non-hiding ones in between): with a seeded RNG the
+    // blinding of member k must not depend on how the call is split over threads
+    if S::HIDING {
+        let shapes = crate::source::shapes_short::<S>(cfg, seed);
+        let mut many: Vec<LP<S>> = Vec::new();
+        for k in 0..12usize {
+            let p = shapes[shapes.len() - 1 - (k % 2).min(shapes.len() - 1)].1.clone();
+            let hid = if k % 5 == 4 { None } else { Some(1) };
+            many.push(lp::<S>(&format!("h{:02}", k), p, None, hid));
+        }
+        phase(&mut ph);
+        match commit_set::<S>(&keys, many, seed, 1) {
+            Ok(cm) => {
+                for (i, x) in cm.comms.iter().enumerate() {
+                    out.push((format!("hiding-batch/commitment[{}]", i), ser(x.commitment())));
+                    out.push((format!("hiding-batch/state[{}]", i), ser(&cm.states[i])));
+                }
+                phase(&mut ph);
+                if let Ok(s) = open_single::<S>(&keys, &cm, &[0, 1, 4, 11], &labels[0].1, 0, seed, 1) {
+                    let bp: BPf<S> = vec![s.proof.clone()].into();
+                    out.push(("hiding-batch/proof".into(), ser(&bp)));
+                }
+            }
+            Err(o) => out.push(("hiding-batch/commit-error".into(), o.short().into_bytes())),
+        }
+    }
     let mut qs = QuerySet::<S::Pt>::new();
     for p in c.polys.iter() {
         qs.insert((p.label().clone(), (labels[0].0.clone(), labels[0].1.clone())));
